@@ -31,7 +31,7 @@ func Register() {
 		NonTrivial: func(c map[string]int64) bool {
 			return c["C08.respond_verdicts"] > 0 && c["C08.schedule_checks"] > 1 && c["C08.marker_checks"] > 0
 		},
-		Probes: []string{"C08.respond_verdicts", "C08.schedule_checks", "C08.frequency_checks", "C08.marker_checks",
+		Probes: []string{"C08.respond_verdicts", "C08.respond_verdicts_valid_answer_judged", "C08.schedule_checks", "C08.frequency_checks", "C08.marker_checks",
 			"C08.removal_checks", "C08.ctx_op_verdicts", "C08.request_shape_checks",
 			"svc.respond_in_expiry_block", "svc.respond_after_expiry", "svc.respond_duplicate",
 			"svc.respond_wrong_provider", "svc.request_expired", "svc.request_answered", "svc.oneshot_removed",
